@@ -1137,4 +1137,75 @@ example : ((Info.empty.addTablet ("ks", "t") (tb 1 5)).1.maintenance [("ks", tru
     = [(("ks", "t"), ⟨[tb 1 5], false⟩), (("ks", "u"), Table.empty)] ∧
     ((Info.empty.addTablet ("ks", "t") (tb 1 5)).1.maintenance [("ks", false, ["t"])] [] [] []).tables = [] := by decide
 
+/-! ### the payload bytes -/
+
+private theorem beNat_foldl_lt (bs : List UInt8) : ∀ acc : Nat,
+    bs.foldl (fun acc b => acc * 256 + b.toNat) acc < (acc + 1) * 256 ^ bs.length := by
+  induction bs with
+  | nil => intro acc; simp
+  | cons b bs ih =>
+    intro acc
+    simp only [List.foldl_cons, List.length_cons]
+    have hb : b.toNat < 256 := b.toNat_lt
+    calc _ < (acc * 256 + b.toNat + 1) * 256 ^ bs.length := ih _
+      _ ≤ ((acc + 1) * 256) * 256 ^ bs.length := Nat.mul_le_mul_right _ (by omega)
+      _ = (acc + 1) * 256 ^ (bs.length + 1) := by rw [Nat.mul_assoc, Nat.pow_succ, Nat.mul_comm 256]
+
+private theorem beInt_i64 (bs : List UInt8) (h : bs.length = 8) : i64Min ≤ beInt bs ∧ beInt bs ≤ i64Max := by
+  have hlt : beNat bs < 256 ^ 8 := by
+    have := beNat_foldl_lt bs 0
+    simpa [beNat, h] using this
+  unfold beInt i64Min i64Max
+  simp only [h]
+  have e1 : (2 : Nat) ^ (8 * 8 - 1) = 9223372036854775808 := by decide
+  have e2 : (2 : Int) ^ (8 * 8) = 18446744073709551616 := by decide
+  have e3 : (256 : Nat) ^ 8 = 18446744073709551616 := by decide
+  rw [e1, e2]
+  rw [e3] at hlt
+  split <;> omega
+
+private theorem fixedField_len {n : Nat} {c : Option (List UInt8)} {b : List UInt8} (h : fixedField n c = some b) :
+    b.length = n := by
+  unfold fixedField at h
+  split at h
+  · cases h
+  · split at h
+    · cases h; assumption
+    · cases h
+
+/-- **Everything `from_custom_payload` accepts is a non-empty range inside `(i64::MIN, i64::MAX]`** — the
+hypothesis `ValidHist` of the history theorems holds for every tablet that can reach `add_tablet`. -/
+theorem payload_bytes_valid (bs : List UInt8) (f l : Int) (r : List (Nat × Nat))
+    (h : parsePayload bs = .ok (f, l, r)) : i64Min < f ∧ f ≤ l ∧ l ≤ i64Max := by
+  unfold parsePayload at h
+  split at h
+  · cases h
+  · split at h
+    · cases h
+    · rename_i a ha
+      split at h
+      · cases h
+      · split at h
+        · cases h
+        · rename_i b hb
+          have ba := beInt_i64 a (fixedField_len ha)
+          have bb := beInt_i64 b (fixedField_len hb)
+          split at h
+          · cases h
+          · have := payload_range _ _ _ f l r ba bb h
+            omega
+          · split at h
+            · cases h
+            · split at h
+              · cases h
+              · have := payload_range _ _ _ f l r ba bb h
+                omega
+
+-- non-vacuity: the cell `(1, 2, [(36857b24-…, 255)])` is accepted as the tablet `[2, 2]`; cut short it is rejected
+example : (parsePayload [0, 0, 0, 8, 0, 0, 0, 0, 0, 0, 0, 1, 0, 0, 0, 8, 0, 0, 0, 0, 0, 0, 0, 2, 0, 0, 0, 36, 0, 0, 0, 1, 0, 0, 0, 28, 0, 0, 0, 16, 54, 133, 123, 36, 90, 117, 64, 51, 152, 235, 56, 8, 189, 92, 127, 106, 0, 0, 0, 4, 0, 0, 0, 255]).toOption
+    = some (2, 2, [(72471384871161087268452217885046898538, 255)]) := by decide
+example : (match parsePayload [0, 0, 0, 8, 0, 0, 0, 0, 0, 0, 0, 1, 0, 0, 0, 8, 0, 0, 0, 0, 0, 0, 0, 2, 0, 0, 0, 36, 0, 0, 0, 1, 0, 0, 0, 28, 0, 0, 0, 16, 54, 133, 123, 36, 90, 117, 64, 51, 152, 235, 56, 8, 189, 92, 127, 106, 0, 0, 0, 4, 0] with
+    | .error .deserialization => true
+    | _ => false) = true := by decide
+
 end ScyllaVerif.Props.C15
